@@ -127,6 +127,23 @@ func (w *World) VerifyUnit(fn *ssa.Function, con *Contract) *UnitResult {
 			x.allocBound = v[0].C[0]
 		}
 	}
+	// lemma instances requested by the contract (`use lemma(args)`): called by contract
+	if con != nil && !con.Trusted {
+		for _, uf := range con.Uses {
+			_, ns, err := x.runFuncBind(uf, args, nil, st, nil)
+			if err != nil {
+				return fail(err)
+			}
+			st.heaps, st.top, st.havocs = ns.heaps, ns.top, ns.havocs
+		}
+		if con.Decr != nil {
+			v, err := x.ghostCall(st, con.Decr, nil, args)
+			if err != nil {
+				return fail(err)
+			}
+			x.decrEntry = v[0].C[0]
+		}
+	}
 	// vacuity guard: the assumptions so far must be satisfiable
 	x.obligs = append(x.obligs, &Oblig{Name: name + "#pre-sat", Kind: "pre-sat", Func: name, PC: x.full(st), Goal: tb.False, NHyps: len(x.assumes), ExpectSat: true})
 	if con != nil && con.Trusted {
